@@ -126,8 +126,10 @@ def gen_cases(rng, n_cases):
         for fn in sorted(os.listdir(cdir)):
             if fn.endswith('.json'):
                 c = json.load(open(os.path.join(cdir, fn)))
-                add('corpus:' + fn[:-5], bytes.fromhex(c['hex']), c['nv'], c['nc'], tuple(c.get('pol', (0, 'all', 'all', 'all'))),
-                    expect_sig=c.get('sig'))
+                meta = {'expect_sig': c.get('sig')}
+                if 'namelen' in c:
+                    meta['namelen'] = c['namelen']
+                add('corpus:' + fn[:-5], bytes.fromhex(c['hex']), c['nv'], c['nc'], tuple(c.get('pol', (0, 'all', 'all', 'all'))), **meta)
     while len(cases) < n_cases:
         r = rng.random()
         binary = rng.random() < 0.45
@@ -262,6 +264,28 @@ def run_streams(ck, cases, tag):
     return impl, model, exe, cf
 
 
+def valgrind_confirm(ck, cases):
+    """run the cases through an unsanitized build of the harness under memcheck; True = uninitialised use reported"""
+    import shutil
+    if not shutil.which('valgrind'):
+        ck.notes.append('valgrind not available: indeterminate-read cases are reported from the model only')
+        return [None] * len(cases)
+    work = os.path.join(BUILD, 'c14work')
+    exe = ck.cxx('h_solread_plain', [os.path.join(VERIF, 'harness', 'h_solread.cc'), os.path.join(REPO, 'nl-writer2', 'src', 'nl-utils.cc')],
+                 flags=['-O0', '-g', '-DNDEBUG'])
+    cf = os.path.join(work, 'vg.cases')
+    with open(cf, 'w') as f:
+        for c in cases:
+            f.write(case_line(c) + '\n')
+    rc, out, err = sh(['valgrind', '-q', '--error-exitcode=9', '--trace-children=yes', exe, cf, work], timeout=1200)
+    lines = out.split('\n')[:-1]
+    res = []
+    for c in cases:
+        mine = [l for l in lines if l.startswith(c['id'] + ' ')]
+        res.append(any(l == c['id'] + ' ABORT exit-9' for l in mine) and 'uninitialised' in err)
+    return res
+
+
 KNOWN_UB_SIG = {
     'oob': 'text:gsufread-name-index:out-of-bounds',
     'overflow': 'suffix-header:signed-int-overflow',
@@ -273,7 +297,7 @@ KNOWN_UB_SIG = {
 def run(ck):
     ck.level = 'proof'
     proof_ok, failing = ck.proof_stage('MpVerif.C14.Props', 'MpVerif/C14/Props.lean', 'C14_',
-                                        ['MpVerif/C14/*.lean'], expect_min=14)
+                                        ['MpVerif/C14/*.lean'], expect_min=18)
     ck.log('proof stage: ok=%s failing=%s' % (proof_ok, failing[:12]))
     if ck.tier == 'thorough' and proof_ok:
         bad = ck.leanchecker(['MpVerif.C14.Props'])
@@ -298,6 +322,7 @@ def run(ck):
     evkinds = {}
     ntriv = set()
     corr_bad = []
+    uninit_cases = []
     ub_hits = {}
     n_events = 0
     for c, il, ml in zip(cases, impl, model):
@@ -325,6 +350,8 @@ def run(ck):
                 ntriv.add(il.partition(' ')[2])
         # --- oracle on the real reader's behaviour
         for sig, what in oracle(c, il):
+            if sig.endswith(':suffix-name-longer-than-stated'):
+                pass
             if ip[1] == 'ABORT' and tag in ('oob', 'overflow', 'cast'):
                 ok_class = (tag == 'oob' and ip[2] in OOB_CLASSES) or (tag == 'overflow' and ip[2] == 'signed-integer-overflow') \
                     or (tag == 'cast' and ip[2] == 'outside-the-range-of-representable-values')
@@ -336,9 +363,7 @@ def run(ck):
                               'how': 'echo "<case line>" > f; %s f <workdir>   (harness/h_solread.cc built with %s against $MP_REPO)' % (os.path.basename(exe), ' '.join(SAN))})
         # --- correspondence
         if tag == 'uninit':
-            ub_hits[KNOWN_UB_SIG['uninit']] = ub_hits.get(KNOWN_UB_SIG['uninit'], 0) + 1
-            ck.add_violation(KNOWN_UB_SIG['uninit'], 'the model shows gsufread comparing buf[namelen-1] where fgets stored nothing (indeterminate stack byte); real reader answered: %s' % il[:120],
-                             {'case': case_line(c), 'impl': il, 'model': ml})
+            uninit_cases.append((c, il, ml))
             continue
         if tag in ('oob', 'overflow', 'cast'):
             if ip[1] != 'ABORT':
@@ -348,6 +373,18 @@ def run(ck):
             corr_bad.append((c, il, ml, 'model expects: ' + exp))
         if len(ck.cov['samples']) < 8 and c['family'] not in [s.get('family') for s in ck.cov['samples']]:
             ck.sample({'family': c['family'], 'case': case_line(c)[:300], 'impl': il[:300]})
+    # model predicts a read of a never-written stack byte: confirm on the real code with valgrind (memcheck)
+    if uninit_cases:
+        sub = uninit_cases[:6 if ck.tier == 'quick' else 60]
+        conf = valgrind_confirm(ck, [c for c, _, _ in sub])
+        for (c, il, ml), ok in zip(sub, conf):
+            if ok:
+                ub_hits[KNOWN_UB_SIG['uninit']] = ub_hits.get(KNOWN_UB_SIG['uninit'], 0) + 1
+                ck.add_violation(KNOWN_UB_SIG['uninit'], 'gsufread compares buf[namelen-1] although fgets stored fewer bytes: valgrind reports a use of an uninitialised value in the real reader (which answered: %s)' % il[:100],
+                                 {'case': case_line(c), 'impl': il, 'model': ml, 'how': 'valgrind --trace-children=yes <h_solread built -O0 without sanitizers> <case file> <workdir>'})
+            elif ok is False:
+                corr_bad.append((c, il, ml, 'model predicts a read of an indeterminate byte, valgrind did not report one'))
+        ck.cov['uninit_read_cases'] = {'predicted_by_model': len(uninit_cases), 'run_under_valgrind': len(sub), 'confirmed': sum(1 for x in conf if x)}
     for c, il, ml, why in corr_bad[:5]:
         has_oracle_fail = bool(oracle(c, il))
         ck.add_violation('model-differs:%s' % c['family'].split(':')[0], 'Lean model readSol and the real reader disagree (%s)' % why[:300],
